@@ -370,6 +370,21 @@ fn index_k<K: Kind>(c: &FileCase, ctx: &mut Ctx) -> Result<(), Fail> {
     for i in [n, n + 1, usize::MAX] {
         ensure!(r3.read_nth_shape(i).is_none(), "nth-out-of-range", "read_nth_shape({}) returns something for n = {}", i, n);
     }
+    // seek(k) followed by the collecting read() returns the shapes k.. (what the iterator yields from there)
+    if n >= 2 {
+        let k = n / 2;
+        let mut r4 = open(true)?;
+        r4.seek(k).map_err(|e| Fail::new("index-vs-sequential", format!("seek({}) of {}: {}", k, n, err_str(&e))))?;
+        match r4.read() {
+            Ok(v) => {
+                ensure!(v.len() == n - k, "count", "seek({}) then read() returns {} shapes, {} are left from there", k, v.len(), n - k);
+                for (i, s) in v.iter().enumerate() {
+                    ensure!(view_shape(s) == seq[k + i], "index-vs-sequential", "seek({}) then read(): item {} is not shape {}", k, i, k + i);
+                }
+            }
+            Err(e) => fail!("read-error", "seek({}) then read(): {}", k, err_str(&e)),
+        }
+    }
     // the reader that served those random accesses iterates exactly as a fresh one does (with the index, and therefore
     // as the one without): random access in the middle, then the whole sequence
     for probe in [n / 2, n.saturating_sub(1)] {
